@@ -32,6 +32,31 @@ Theorem texpr_failure_position : forall rec target ops k cur e,
 Proof. exact replay_failure_position. Qed.
 Print Assumptions texpr_failure_position.
 
+(* the arguments of a recorded call are evaluated in Python's order: positional arguments left to right, then the keyword
+   arguments in the order written; so the first failing positional argument is the failure reported whatever the
+   keywords hold, and a keyword argument can only fail once every positional one has a value *)
+Theorem call_arguments_in_python_order : forall rec target args kw,
+  arg_val rec target (ACall args kw) =
+  match eval_pos rec target args with
+  | Ok vs => match eval_kws rec target kw with
+             | Ok kvs => Ok (ECall vs kvs)
+             | Raise e => Raise e | Unmodelled t => Unmodelled t | OutOfFuel => OutOfFuel end
+  | Raise e => Raise e | Unmodelled t => Unmodelled t | OutOfFuel => OutOfFuel end.
+Proof. exact call_args_order_lemma. Qed.
+Print Assumptions call_arguments_in_python_order.
+
+Theorem call_positional_failure_reported_first : forall rec target pre x post kw vs e,
+  eval_pos rec target pre = Ok vs -> eval_one rec target x = Raise e ->
+  arg_val rec target (ACall (pre ++ x :: post) kw) = Raise e.
+Proof. exact call_positional_failure_first_lemma. Qed.
+Print Assumptions call_positional_failure_reported_first.
+
+Theorem call_keyword_failure_after_positionals : forall rec target args pre k x post vs kvs e,
+  eval_pos rec target args = Ok vs -> eval_kws rec target pre = Ok kvs -> eval_one rec target x = Raise e ->
+  arg_val rec target (ACall args (pre ++ (k, x) :: post)) = Raise e.
+Proof. exact call_keyword_failure_lemma. Qed.
+Print Assumptions call_keyword_failure_after_positionals.
+
 (* obligations about the regenerated tables *)
 Theorem overload_dispatch_total_thm :
   forallb (fun dc => code_has_arm (snd dc)) (binary_overloads ++ unary_overloads) = true.
@@ -51,4 +76,9 @@ Proof. intros d a H. cbn in H. repeat (destruct H as [H|H]; [injection H as <- <
 Example ex_eval : glom_t ex_t ex_ops = Ok (VInt (-4)).
 Proof. vm_compute. reflexivity. Qed.
 Example ex_fail : glom_t ex_t [("__getitem__", ALit (VStr "a")); ("__getitem__", ALit (VInt 5)); ("__neg__", ANoArg)] = Raise (pae "IndexError" 1).
+Proof. vm_compute. reflexivity. Qed.
+
+Example ex_kw_order : glom_t (VDict 1 false [(VStr "f", VFun FRec); (VStr "p", VInt 1)])
+    [("__getitem__", ALit (VStr "f")); ("call", ACall [AT [("__getitem__", ALit (VStr "zz"))]] [("k", AT [("__getitem__", ALit (VStr "qq"))])])]
+  = Raise (pae "KeyError" 0).
 Proof. vm_compute. reflexivity. Qed.
